@@ -68,8 +68,17 @@ def directive_lines(text, lex=None):
 def transforms(rng, text, lex=None):
     """meaning-preserving rewrites of one document; yields (name, new_text)"""
     lines, dl = directive_lines(text, lex)
-    yield "crlf", text.replace("\n", "\r\n")
-    yield "cr", text.replace("\n", "\r")
+    # a multi-line note inside a body is free text: its line ends are content (excluded by the property)
+    multiline_note = False
+    if lex:
+        for item in lex.split("|")[0].split(","):
+            if item and item.split(":")[0] in ("3", "4", "8"):
+                _, b, e = item.split(":")
+                if re.search(r"/\*[^*]*\n", text[int(b):int(e) + 1]):
+                    multiline_note = True
+    if not multiline_note:
+        yield "crlf", text.replace("\n", "\r\n")
+        yield "cr", text.replace("\n", "\r")
     if not dl:
         return
     # blank lines / comment lines / block comments before directive lines
